@@ -196,6 +196,7 @@ theorem reconcile_origin {blocks : List (Bool × Pfx)} {pools : List Pool} {p' :
 `Allocatable` condition behind the controller's back. -/
 def Event.Benign : Event → Prop
   | .setCond _ _ => False
+  | .reconcileF _ _ => False   -- passes with write failures: see `effDisjoint_pass` instead
   | .create _ c _ => match c with
     | none => True
     | some (v6, c) => c.WF (width v6)
@@ -254,6 +255,7 @@ theorem step_invariant (s : State) (hw : ∀ p ∈ s.pools, p.WF) (hJ : TrueDisj
       rw [e]; exact this
     · exact active_pairwise_disjoint_TD s.pools hw s.blocks
   | setCond n c => exact absurd he id
+  | reconcileF fs ff => exact absurd he id
   | setFin n b => exact hgc _ (hmap n _ (fun p => ⟨rfl, rfl⟩))
 
 theorem history_invariant : ∀ (es : List Event) (s : State), (∀ p ∈ s.pools, p.WF) → TrueDisjoint s.pools →
